@@ -807,7 +807,19 @@ impl BigDecimal {
         }
 
         let uint = self.int_val.magnitude();
-        let result = arithmetic::inverse::impl_inverse_uint_scale(uint, self.scale, ctx);
+
+        // the magnitude is rounded: directed modes must be mirrored for negative values
+        let result = match (self.sign(), ctx.rounding_mode()) {
+            (Sign::Minus, RoundingMode::Floor) => {
+                let ctx = ctx.with_rounding_mode(RoundingMode::Ceiling);
+                arithmetic::inverse::impl_inverse_uint_scale(uint, self.scale, &ctx)
+            }
+            (Sign::Minus, RoundingMode::Ceiling) => {
+                let ctx = ctx.with_rounding_mode(RoundingMode::Floor);
+                arithmetic::inverse::impl_inverse_uint_scale(uint, self.scale, &ctx)
+            }
+            _ => arithmetic::inverse::impl_inverse_uint_scale(uint, self.scale, ctx),
+        };
 
         // always copy sign
         result.take_with_sign(self.sign())
